@@ -8,6 +8,7 @@ NOTE = ("trusted: rustc nightly MIR printer, the mirsym executor and its closed 
         "the native replay driver; a pass means no counterexample within evidence.coverage.bounds, nothing outside them")
 CLAIMS = {
  'C20': ("codec round trips (varint, delta, id lists, RLE) and decoder totality on arbitrary bytes, for every value within the stated lengths", "§4 C20"),
+ 'C01': ("per-handler inductive Raft obligations (terms monotone, one vote per term to an up-to-date candidate, persisted before reply; AppendEntries acknowledges/commits only the vouched prefix and matches the leader's entries; leader commit rule; stale responses ignored; election quorum; pre-vote read-only) for every pre-state and message of the bounded shape; the composition into cluster-level safety is the textbook argument, not machine-checked", "§4 C01"),
  'C17': ("newer-wins kernel is a strict order; the real merge gives the same view for every order/batching/repetition of the same updates; clock and incarnations never regress under any single operation", "§4 C17"),
 }
 NA = {
@@ -34,8 +35,8 @@ for p in props:
     na.append({"property_id": p['id'], "reason": NA.get(p['id'], "check not built yet in this session (planned, see DESIGN.md §4)")})
 man = {
  "version": 1, "setup_cmd": "./setup.sh",
- "hooks": {"guard": "neumann_verif", "enable": "none needed: the MIR dump reaches private items and the replay driver uses public APIs only",
-           "baseline_off_cmd": "cd /repo && cargo nextest run --workspace --no-fail-fast --offline", "source_commits": [], "add_only": True},
+ "hooks": {"guard": "neumann_verif", "enable": "cargo feature neumann_verif on tensor_chain (read-only accessors used only by the native replay driver /verif/replay; the MIR dump needs no hooks)",
+           "baseline_off_cmd": "cd /repo && cargo nextest run --workspace --no-fail-fast --offline", "source_commits": ["80aaab17"], "add_only": True},
  "engines": [{"name": "mirsym", "path": "/verif/mirsym", "serves_properties": sorted(CLAIMS),
               "kind_free_text": "symbolic execution of the MIR rustc prints for the current tree; z3 decides every path obligation; native replay driver (/verif/replay) for translator validation and counterexample confirmation"}],
  "checks": checks, "not_applicable": na,
